@@ -27,11 +27,13 @@ class SClient:
 
     def send(self, data: bytes) -> None:
         self.log.add("csend", conn=self.cid, n=len(data))
-        self._send(data)
+        if self._send is not None:  # (a refused connection: the checks judge `refused`)
+            self._send(data)
 
     def close(self) -> None:
         self.log.add("cclose", conn=self.cid)
-        self._close()
+        if self._close is not None:
+            self._close()
 
     def received(self) -> bytes:
         return bytes(self.rx)
@@ -85,7 +87,8 @@ def run_serve_aio(cfg: Dict[str, Any], programs: Dict[str, list],
             self.log = EventLog(loop.time)
             self.tearing_down = False
             self.trigger = asyncio.Event()
-            self.config = build_config(dict(cfg, bind=["unix:" + path]), self.log)
+            self.config = build_config(dict(cfg, bind=["unix:" + path, "unix:" + path + "2"]),
+                                       self.log)
             self.app = ScriptedApp(programs, self)
             self.serve_task: Any = None
             self.readers: List[Any] = []
@@ -133,12 +136,13 @@ def run_serve_aio(cfg: Dict[str, Any], programs: Dict[str, list],
             self.log.add("shutdown_triggered")
             self.trigger.set()
 
-        async def connect(self, read: bool = True) -> SClient:
-            """read=False: a client that never reads what the server sends it."""
+        async def connect(self, read: bool = True, which: int = 0) -> SClient:
+            """read=False: a client that never reads what the server sends it; which: the
+            listening socket (the server is bound to two)."""
             c = SClient(len(res.clients), self.log)
             res.clients.append(c)
             try:
-                reader, writer = await asyncio.open_unix_connection(path)
+                reader, writer = await asyncio.open_unix_connection(path + ("2" if which else ""))
             except (ConnectionRefusedError, FileNotFoundError, OSError) as e:
                 c.refused = True
                 c.error = type(e).__name__
@@ -238,7 +242,8 @@ def run_serve_trio(cfg: Dict[str, Any], programs: Dict[str, list],
             self.log = EventLog(trio.current_time)
             self.tearing_down = False
             self.trigger = trio.Event()
-            self.config = build_config(dict(cfg, bind=["unix:" + path]), self.log)
+            self.config = build_config(dict(cfg, bind=["unix:" + path, "unix:" + path + "2"]),
+                                       self.log)
             self.app = ScriptedApp(programs, self)
 
         def now(self) -> float:
@@ -280,11 +285,11 @@ def run_serve_trio(cfg: Dict[str, Any], programs: Dict[str, list],
             self.log.add("shutdown_triggered")
             self.trigger.set()
 
-        async def connect(self, read: bool = True) -> SClient:
+        async def connect(self, read: bool = True, which: int = 0) -> SClient:
             c = SClient(len(res.clients), self.log)
             res.clients.append(c)
             try:
-                stream = await trio.open_unix_socket(path)
+                stream = await trio.open_unix_socket(path + ("2" if which else ""))
             except OSError as e:
                 c.refused = True
                 c.error = type(e).__name__
